@@ -52,6 +52,10 @@ func (s *srcIter[T]) Next(ctx context.Context) (T, error) {
 	if s.onCall != nil {
 		s.onCall()
 	}
+	if err := ctx.Err(); err != nil { // like a database iterator: a cancelled context fails the read and consumes nothing
+		var zero T
+		return zero, err
+	}
 	s.mu.Lock()
 	defer s.mu.Unlock()
 	s.calls++
@@ -108,6 +112,8 @@ func resCode(v int, err error) int {
 		return -1
 	case errors.As(err, &ce):
 		return int(ce)
+	case errors.Is(err, context.Canceled):
+		return -98
 	}
 	return -99
 }
@@ -406,13 +412,27 @@ type fakeReader struct {
 	u       []int
 	iters   []*srcIter[*openfgav1.Tuple]
 	onFetch func()
+	hmu     sync.Mutex
+	dynHook func() // installed for the duration of one call (cancel the caller's context when the source is read)
 }
+
+func (f *fakeReader) setHook(h func()) { f.hmu.Lock(); f.dynHook = h; f.hmu.Unlock() }
 
 func (f *fakeReader) Read(ctx context.Context, store string, filter storage.ReadFilter, o storage.ReadOptions) (storage.TupleIterator, error) {
 	f.mu.Lock()
 	defer f.mu.Unlock()
 	it := tupSrc(f.u)
-	it.onCall = f.onFetch
+	it.onCall = func() {
+		if f.onFetch != nil {
+			f.onFetch()
+		}
+		f.hmu.Lock()
+		h := f.dynHook
+		f.hmu.Unlock()
+		if h != nil {
+			h()
+		}
+	}
 	f.iters = append(f.iters, it)
 	return it, nil
 }
@@ -489,6 +509,18 @@ func runSharedSchedule(u []int, sched []sharedStep, idle time.Duration) []any {
 			}
 			its[st.C] = wrapTup(it)
 			events = append(events, map[string]any{"e": "Clone", "c": st.C, "kind": kind, "under": created, "stopped": fr.stoppedSet()})
+		case "X": // Next whose caller is cancelled at the moment the underlying iterator is read on its behalf
+			it, ok := its[st.C]
+			if !ok {
+				continue
+			}
+			cctx, cancel := context.WithCancel(ctx)
+			fired := false
+			fr.setHook(func() { fired = true; cancel() })
+			res := it.next(cctx)
+			fr.setHook(nil)
+			cancel()
+			events = append(events, map[string]any{"e": "CNext", "c": st.C, "res": res, "fired": fired, "calls": fr.calls(under[st.C]), "stopped": fr.stoppedSet()})
 		case "N", "H", "S":
 			it, ok := its[st.C]
 			if !ok {
@@ -541,12 +573,16 @@ func runSharedConcurrent(r *rand.Rand, u []int, n int) []any {
 		stopAfter int // -1: drain
 		heads     bool
 		delay     time.Duration
+		cancelAt  time.Duration // > 0: this consumer's context is cancelled after that time; it stops at the first cancellation error
 	}
 	plans := make([]plan, n)
 	for i := range plans {
 		plans[i] = plan{stopAfter: -1, heads: r.Intn(2) == 0, delay: time.Duration(r.Intn(300)) * time.Microsecond}
 		if r.Intn(3) == 0 {
 			plans[i].stopAfter = r.Intn(len(vals) + 1)
+		}
+		if i > 0 && r.Intn(3) == 0 { // consumer 0 is never cancelled: somebody always observes the stream
+			plans[i].cancelAt = time.Duration(1+r.Intn(400)) * time.Microsecond
 		}
 	}
 	out := make([]any, n)
@@ -557,6 +593,12 @@ func runSharedConcurrent(r *rand.Rand, u []int, n int) []any {
 			defer wg.Done()
 			p := plans[i]
 			time.Sleep(p.delay)
+			ctx := ctx
+			if p.cancelAt > 0 {
+				c2, cancel := context.WithTimeout(ctx, p.cancelAt)
+				defer cancel()
+				ctx = c2
+			}
 			it, err := ds.Read(ctx, "store", storage.ReadFilter{Object: "doc:", Relation: "viewer"}, storage.ReadOptions{})
 			if err != nil {
 				out[i] = map[string]any{"e": "Consumer", "obs": []int{-99}, "full": true}
@@ -569,16 +611,18 @@ func runSharedConcurrent(r *rand.Rand, u []int, n int) []any {
 				if p.stopAfter >= 0 && k >= p.stopAfter {
 					break
 				}
+				var h, x int
 				if p.heads {
-					h := oi.head(ctx)
-					x := oi.next(ctx)
-					if h != x {
-						obs = append(obs, -97) // Head disagreed with the following Next
-					}
-					obs = append(obs, x)
-				} else {
-					obs = append(obs, oi.next(ctx))
+					h = oi.head(ctx)
 				}
+				x = oi.next(ctx)
+				if p.cancelAt > 0 && ctx.Err() != nil { // its own cancellation: what it saw before still has to be the stream
+					break
+				}
+				if p.heads && h != x {
+					obs = append(obs, -97) // Head disagreed with the following Next
+				}
+				obs = append(obs, x)
 				if obs[len(obs)-1] < 0 {
 					full = true
 					break
@@ -671,7 +715,7 @@ func C23(run *Run) {
 	}
 	idle := 15 * time.Millisecond
 	// exhaustive: two clones, every interleaving of their scripts up to a bound over a short sequence
-	scripts := [][]string{{"C", "N", "N", "N", "S"}, {"C", "H", "N", "S", "N"}, {"C", "N", "N", "N", "N"}}
+	scripts := [][]string{{"C", "N", "N", "N", "S"}, {"C", "H", "N", "S", "N"}, {"C", "N", "N", "N", "N"}, {"C", "X", "N", "X", "N"}}
 	nsched := 0
 	var inter func(a, b []string, acc []sharedStep)
 	var us = [][]int{{10, 11}, {10, 11, -2}, {}}
@@ -724,6 +768,8 @@ func C23(run *Run) {
 				sched = append(sched, sharedStep{c, "S"})
 			case x < 10:
 				sched = append(sched, sharedStep{c, "H"})
+			case x < 13:
+				sched = append(sched, sharedStep{c, "X"})
 			default:
 				sched = append(sched, sharedStep{c, "N"})
 			}
